@@ -5,7 +5,10 @@ OUT = "/verif/seeded"
 needs = {}
 import itertools
 items = [("/tmp/seedout", d, v) for d in sorted(os.listdir("/tmp/seedout")) for v in ("a", "b")] + \
-        [("/tmp/seedout2", d, v) for d in sorted(os.listdir("/tmp/seedout2")) for v in ("c", "d")]
+        [("/tmp/seedout2", d, v) for d in sorted(os.listdir("/tmp/seedout2")) for v in ("c", "d")] + \
+        [("/tmp/seedout3", d, v) for d in sorted(os.listdir("/tmp/seedout3")) for v in ("e", "f")]
+only = sys.argv[1:] 
+items = [it for it in items if not only or (it[1] + it[2]) in only or it[2] in only]
 for (base, d, v) in items:
     if True:
         src = "%s/%s/%s" % (base, d, v)
@@ -33,7 +36,7 @@ for (base, d, v) in items:
         notes = open(src + "/notes.md").read() if os.path.exists(src + "/notes.md") else ""
         meta = {
             "id": sid, "property": d,
-            "origin": "written by an independent sub-agent that saw only the property text and a scratch worktree of /repo" + (" (second round: the agent was also told which ideas the first round had used, and asked for less obvious places)" if v in ("c", "d") else ""),
+            "origin": "written by an independent sub-agent that saw only the property text and a scratch worktree of /repo" + (" (second round: the agent was also told which ideas the first round had used, and asked for less obvious places)" if v in ("c", "d") else (" (third round: told which ideas rounds 1-2 had used, asked to prefer signal.rs / pointer.rs / mutex.rs / backoff.rs / internal.rs)" if v in ("e", "f") else "")),
             "what_it_needs_to_manifest": (re.findall(r"(?im)^.*(?:needs?|trigger|manifest)[^\n]*$", notes) or [""])[0][:400],
             "confirmed_by_me": {
                 "scratch_worktree": "git -C /repo worktree add --detach /tmp/seedconfirm HEAD (removed afterwards)",
